@@ -15,7 +15,7 @@ pub fn def() -> PropDef {
     PropDef {
         info: PropInfo {
             id: "C08",
-            rule: "programs with 1-4 helper call sites; helper ids from {0,1,6,0x7fffffff,0x80000000,0xffffffff,random u32}, a random subset registered onto three distinct instrumented 5-argument helpers; each site loads five boundary-heavy, pairwise distinct arguments into r1-r5, keeps sentinels in r6-r9 and a spilled copy of r10, and is placed at top level or inside local functions at depth 1-3 (interpreter and JIT; Cranelift gets the top-level-only programs); call instructions carry junk dst/off fields; unregistered ids are placed on executed or on never-executed paths. Every helper is entered through an assembly stub that records rsp. Oracle per engine: log of (function identity, a1..a5) equals the reference model's call sequence, (rsp+8)%16==0 at every call, result equals the model, sentinels and r10 fold to the expected value; an unregistered id gives an interpreter Err only if reached (and Ok with the model value if not), gives a compile-time Err from both compilers, and nothing is invoked beyond the model's log. Non-trivial = at least one executed helper call with pairwise distinct arguments; distinct by hash.",
+            rule: "programs with 1-4 helper call sites; helper ids from {0,1,6,0x7fffffff,0x80000000,0xffffffff,random u32}, a random subset registered onto three distinct instrumented 5-argument helpers; each site loads five boundary-heavy, pairwise distinct arguments into r1-r5, keeps sentinels in r6-r9 and a spilled copy of r10, and is placed at top level or inside local functions at depth 1-8, the deepest legal nesting (interpreter and JIT; Cranelift gets the top-level-only programs); call instructions carry junk dst/off fields; unregistered ids are placed on executed or on never-executed paths. Every helper is entered through an assembly stub that records rsp. Oracle per engine: log of (function identity, a1..a5) equals the reference model's call sequence, (rsp+8)%16==0 at every call, result equals the model, sentinels and r10 fold to the expected value; an unregistered id gives an interpreter Err only if reached (and Ok with the model value if not), gives a compile-time Err from both compilers, and nothing is invoked beyond the model's log. Non-trivial = at least one executed helper call with pairwise distinct arguments; distinct by hash.",
             assumptions: &["the Rust-ABI helper type coincides with the C ABI for five u64 arguments on x86-64 (rbpf's JITs rely on the same fact)", "reference model for register effects of call/exit"],
         },
         run,
@@ -139,7 +139,7 @@ pub fn lower(p: &HProg) -> ExecCase {
     }
     case.helpers = ids.iter().filter_map(|(id, p)| p.map(|p| (*id, p))).collect();
     // nested chains deeper than one level need small frames: 512 / 256 only allows depth 1
-    case.calc = Some((vec![], 64));
+    case.calc = Some((vec![], 56));
     case
 }
 
@@ -235,7 +235,7 @@ fn run(ctx: &Ctx) {
     let runner = RefCell::new(Runner::new());
     ctx.shrink_iters.set(3000);
     let cases = ctx.share(ctx.tier.pick(16_000, 480_000));
-    ctx.search("nested", "exec", cases, hprog(3), |p, want_case| {
+    ctx.search("nested", "exec", cases, hprog(8), |p, want_case| {
         let mut case = lower(p);
         let mut st = ctx.stats();
         let frozen = st.is_frozen() || want_case;
